@@ -7,7 +7,7 @@
 PROPS = {
     "C01": {
         "level": "exploration",
-        "steps": [("hv", "C01", {})],
+        "steps": [("hv", "C01", {}), ("py", "san", "cachegrind", "thorough_only"), ("py", "san", "asan", "thorough_only")],
         "rule": "documents from G-corpus prefix closure, clauses, hostile Unicode, mutations, fixtures, long/nesting families and "
                 "grammar-generated files, through all 29 front-ends (x wrappers, x rule configurations x dialects), each run under a "
                 "crash monitor (catch_unwind + process-death observation), a CPU-time hang monitor and (thorough) instruction-count "
@@ -27,7 +27,7 @@ PROPS = {
     },
     "C03": {
         "level": "exploration",
-        "steps": [("hv", "C03x", {}), ("hv", "C03s", {"_scale": 0.5})],
+        "steps": [("hv", "C03x", {}), ("hv", "C03s", {"_scale": 0.5}), ("py", "san", "miri", "thorough_only")],
         "rule": "(a) exhaustive edit primitive: all texts of length 0..5 over {a,b,c} x all spans x Replace(len 0..3)/InsertAfter(len 0..2)/Remove "
                 "against an independent splice; (b) every lint and suggestion produced by the C01 document stream: span inside text, apply == "
                 "reference splice; non-trivial = lint with >= 1 suggestion not at offset 0; distinct = hash(message, flagged text)",
@@ -45,7 +45,7 @@ PROPS = {
     },
     "C05": {
         "level": "exploration",
-        "steps": [("hv", "C05", {"_scale": 4.0}), ("hv", "C05", {"mode": "threads", "_jobs": 2, "_tag": "C05threads"}), ("py", "c05proc", "run")],
+        "steps": [("hv", "C05", {"_scale": 4.0}), ("hv", "C05", {"mode": "threads", "_jobs": 2, "_tag": "C05threads"}), ("py", "c05proc", "run"), ("py", "san", "tsan", "thorough_only")],
         "rule": "histories of (set/unset rule | lint(doc, plain|markdown)) on one long-lived LintGroup or harper_wasm::Linter, documents assembled from a small clause pool so "
                 "that the chunk cache and the word cache are hit constantly (hook counters prove it), each step compared with a freshly built linter of the same configuration; the "
                 "same documents on 16 threads in different orders and one linter moved across threads vs a single-thread run; two processes byte-for-byte; thorough adds an "
@@ -162,7 +162,7 @@ PROPS = {
     },
     "C13": {
         "level": "exploration",
-        "steps": [("hv", "C13x", {}), ("hv", "C13s", {"_scale": 0.5})],
+        "steps": [("hv", "C13x", {}), ("hv", "C13s", {"_scale": 0.5}), ("py", "san", "miri", "thorough_only")],
         "rule": "(a) exhaustive: all lists of <= 4 spans over positions 0..5 (21 spans); random lists up to 200 spans; "
                 "(b) every lint list of the C01 document stream; clauses: output is a sub-multiset, kept lints pairwise disjoint, each "
                 "dropped lint starts inside a kept one; then fixes applied back to front == any order with offset bookkeeping; "
@@ -171,7 +171,7 @@ PROPS = {
     },
     "C19": {
         "level": "exploration",
-        "steps": [("hv", "C19", {"_scale": 5.0})],
+        "steps": [("hv", "C19", {"_scale": 5.0}), ("py", "c19ls", "run")],
         "rule": "record lists produced by the real producer (RecordKind::from_lint on documents with newlines, quotes, control, LS/PS and astral characters, extreme numbers) and "
                 "configuration-update records, in 1-4 append batches through Stats::write (memory and a file opened in append mode) and through the JS API "
                 "(generate_stats_file / import_stats_file); checks read(write(R1)++write(R2)) == R1++R2, one line per record, summarize counts each lint record once; "
